@@ -478,13 +478,13 @@ class Algebra:
         """ Retrieve the canonical blade for a given blade, and the number of sing swaps required. """
         if basis_blade in self.canon2bin:
             return basis_blade, 0
-        # if a generator isn't found, return a generator outside of the current space.
+        # if a generator isn't found the result is outside of the current space: no canonical blade (None).
         bin = reduce(operator.or_, (self.canon2bin.get(f'e{i}', 2 ** self.d) for i in basis_blade[1:]))
         canon_blade = self.bin2canon.get(bin, False)
         if canon_blade:
             swaps, *_ = _swap_blades(basis_blade[1:], '', target=canon_blade[1:])
             return canon_blade, swaps
-        return f'e{2 ** self.d}', 0
+        return None, 0
 
     def _swap_blades_bin(self, A: int, B: int):
         """
